@@ -32,6 +32,7 @@ type chain struct {
 	ctx    sdk.Context    // root context of the deliver state at height 1 (never written to directly)
 	keeper ckeeper.Keeper // a real cert keeper over the app's own cert store key (for the With* iterators)
 	height int64
+	noq    bool // run no queries (stages that judge transactions only)
 	// route, when set, replaces the app's gRPC query router handler (signed-transaction mode: ABCI Query)
 	route func(ctx sdk.Context, req abci.RequestQuery) (abci.ResponseQuery, error)
 }
@@ -54,9 +55,12 @@ func newChain() (*chain, error) {
 
 // txResult is the outcome of one emulated transaction.
 type txResult struct {
-	OK    bool
-	Stage string // "", "ante", "validate", "handler", "panic"
-	Err   string
+	Signers []string // msg.GetSigners() as model owner ids ("?" unknown account, "!panic")
+	Gas     uint64   // gas consumed by the execution (when the caller installed a gas meter)
+	Events  string   // events emitted by the handler, JSON (accepted transactions)
+	OK      bool
+	Stage   string // "", "ante", "validate", "handler", "panic"
+	Err     string
 }
 
 // runTx does what baseapp.runTx does for a single-message transaction signed by exactly `signer`:
@@ -87,9 +91,11 @@ func (c *chain) runTx(parent sdk.Context, signer sdk.AccAddress, msg sdk.Msg, pa
 	if h == nil {
 		panic("no handler registered for " + path)
 	}
-	branch, write := parent.CacheContext()
+	gm := sdk.NewGasMeter(1 << 40)
+	branch, write := parent.WithGasMeter(gm).CacheContext()
 	if _, err := h(branch, msg); err != nil {
-		return txResult{Stage: "handler", Err: err.Error()}, parent, commit
+		return txResult{Stage: "handler", Err: err.Error(), Gas: gm.GasConsumed()}, parent, commit
 	}
-	return txResult{OK: true}, branch, write
+	ev, _ := json.Marshal(branch.EventManager().ABCIEvents())
+	return txResult{OK: true, Events: string(ev), Gas: gm.GasConsumed()}, branch.WithGasMeter(parent.GasMeter()), write
 }
